@@ -104,7 +104,11 @@ def _task(item):
   rng = np.random.default_rng(seed)
   for rec in item["recipes"]:
     try:
-      q = _W["q"].Quantizer(model, os.path.join(common.REPO, "ai_edge_quantizer/recipes", rec))
+      if rec.startswith("helper:"):
+        from ai_edge_quantizer import recipe as _helpers
+        q = _W["q"].Quantizer(model, getattr(_helpers, rec[7:])())
+      else:
+        q = _W["q"].Quantizer(model, os.path.join(common.REPO, "ai_edge_quantizer/recipes", rec))
       cal = None
       if q.need_calibration:
         cal = {}
@@ -146,6 +150,12 @@ def main():
                                         "raise_sites": sorted({d["why"] for d in raised})}
       for k, d in dumps.items():
         scenarios.setdefault(k, {"scn": d["scn"], "pred": {}})["pred"][rec] = (d["pc"], d["why"])
+  # the recipe helpers (recipe.py): every public function without parameters that returns a rule list
+  import inspect
+  from ai_edge_quantizer import recipe as _helpers
+  helpers = ["helper:" + n for n, f in sorted(vars(_helpers).items())
+             if inspect.isfunction(f) and not n.startswith("_") and not inspect.signature(f).parameters]
+  all_recipes = SHIPPED + helpers
   # graph structure only matters: strip modes (the real recipe resolution decides them)
   graphs = {}
   for k, v in scenarios.items():
@@ -158,12 +168,12 @@ def main():
   for g in chosen:
     scn = graphs[g]["scn"]
     scn = dict(scn, mode=[[noq for _ in sub["ops"]] for sub in scn["subs"]], inmode=noq, outmode=noq)
-    items.append(dict(scn=scn, seed=args.seed, recipes=SHIPPED, tag="tlc"))
+    items.append(dict(scn=scn, seed=args.seed, recipes=all_recipes, tag="tlc"))
   nrand = 120 if args.tier == "quick" else 4000
   for i in range(nrand):
     scn = rgen.gen(args.seed * 7919 + i, 3, 8, nsub=1)
     scn = dict(scn, mode=[[noq for _ in sub["ops"]] for sub in scn["subs"]], inmode=noq, outmode=noq)
-    items.append(dict(scn=scn, seed=args.seed + i, recipes=SHIPPED, tag="random"))
+    items.append(dict(scn=scn, seed=args.seed + i, recipes=all_recipes, tag="random"))
   t0 = time.time()
   results = []
   with cf.ProcessPoolExecutor(max_workers=args.procs, initializer=_winit) as ex:
@@ -193,11 +203,11 @@ def main():
   chk.cov.update({
       "states": states, "transitions": trans, "traces_validated_against_impl": nrun,
       "graphs_enumerated": len(graphs), "graphs_replayed": len([r for r in results if r.get("unreal") is None]),
-      "recipe_runs": nrun, "returned": nret, "raise_kinds": raise_kinds, "configs": per_cfg,
+      "recipe_helpers": helpers, "recipe_runs": nrun, "returned": nret, "raise_kinds": raise_kinds, "configs": per_cfg,
       "evaluations": nrun, "distinct_nontrivial": len([r for r in results if r.get("unreal") is None]),
       "rule": "graph = DAG over the operator kinds (shared inputs, concatenations of shared tensors, squared tensors, unsupported ops "
               "between supported ones, intermediate tensors exported) enumerated by TLC up to the bound + seeded random 3-8 op graphs; "
-              "each run with the 5 shipped JSON recipes loaded unchanged and real calibrate() on random data",
+              "each run with the 5 shipped JSON recipes loaded unchanged, and with every recipe helper of recipe.py, and real calibrate() on random data",
       "samples": [dict(scenario=items[i]["scn"]["subs"], result=results[i].get("res")) for i in (0, len(items) - 1)],
       "impl_wall_s": round(time.time() - t0, 1), "exhaustive": len(chosen) == len(keys),
   })
